@@ -764,14 +764,14 @@ namespace
     "clone(Deep)", "operator==", "write_out/read_from(binary)", "operator<<", "format", "move"};
 
   template<typename DT, int BS, typename IT = Index>
-  void run_sparse(verif::Ctx& c, const std::string& kname)
+  void run_sparse(verif::Ctx& c, const std::string& kname, int shrink = 0)
   {
     typedef SparseSel<DT, BS, IT> S;
     typedef typename S::SV SV;
     typedef std::map<Index, std::vector<DT>> Model;
     // rich alphabet {set(i), S = used_elements(), R = the four reductions} with first-observation replays up to nrich;
     // one more size with the plain alphabet {set(i), S} (longer histories, more reallocations)
-    const int nrich = c.thorough ? 5 : 4;
+    const int nrich = (c.thorough ? 5 : 4) - shrink;
     const int nmax = nrich + 1;
     for(int n = 0; n <= nmax; ++n)
     {
@@ -1084,7 +1084,7 @@ int main(int argc, char** argv)
   spec.bounds_quick = "kinds: DV<double|float> (Index), DV<float,u32>, DVB<double,2|3>, DVB<float,2>, DVB<double,u32,3>, Tuple<DV,DVB2><double|float>, Power<DV,2|3><double>, Power<DVB2,2><float>, Tuple<Power<DV,2>,DV><double>; "
     "DV length 0..20, DVB blocks 0..7, power sub-size 0..6, 10 tuple shapes; 32 operations; all set partitions of 2/3 operands x 2-4 realisations; "
     "value sets dyadic, dyadic-rotated, dyadic+zeros, spread 2^+-26, rounding, all sign masks for flat length <= 6, all (rank permutation x sign mask) for flat length <= 5 in the min/max operations; 9 scalars; "
-    "every case runs the operation twice on the same objects; operands also as derived objects (move-assigned, deep/weak clone, clone-into with bystander, convert from the other data type); value sets also all-negative, all-positive, extreme magnitudes (max/2, min normal, denormals) for the single-rounding and selection operations; sparse vectors (SparseVector<double|float|double,u32>, SparseVectorBlocked<double,2>, <float,3>, <float,u32,2>): size 0..4 all histories over {set(i), S=used_elements, R=four reductions} up to length size+2, each followed on a FRESH replay by every "
+    "every case runs the operation twice on the same objects; operands also as derived objects (move-assigned, deep/weak clone, clone-into with bystander, convert from the other data type); value sets also all-negative, all-positive, extreme magnitudes (max/2, min normal, denormals) for the single-rounding and selection operations; sparse vectors (SparseVector<double|float|double,u32>, SparseVectorBlocked<double,2>, <float,3>, <float,u32,2>; the u32 kinds one size smaller): size 0..4 all histories over {set(i), S=used_elements, R=four reductions} up to length size+2, each followed on a FRESH replay by every "
     "first observation (4 reductions, used_elements, indices, elements, sort, clone, ==, write/read, <<, format, move, operator()(i) for every i); size 5: all histories over {set(i), S} up to length 7";
   spec.bounds_thorough = "as quick with DV length 0..36, DVB blocks 0..12, sub-size 0..9, 14 tuple shapes, sign masks for flat length <= 8, rank permutations for flat length <= 6, sparse rich histories for size 0..5, plain histories for size 6 (length 8)";
   spec.assumptions = {
@@ -1119,7 +1119,7 @@ int main(int argc, char** argv)
     run_sparse<double, 2>(c, "SparseVectorBlocked<double,2>");
     run_sparse<float, 3>(c, "SparseVectorBlocked<float,3>");
     // index type u32 (the duplicate marker of sort() is numeric_limits<IT>::max())
-    run_sparse<double, 1, unsigned int>(c, "SparseVector<double,u32>");
-    run_sparse<float, 2, unsigned int>(c, "SparseVectorBlocked<float,u32,2>");
+    run_sparse<double, 1, unsigned int>(c, "SparseVector<double,u32>", 1);
+    run_sparse<float, 2, unsigned int>(c, "SparseVectorBlocked<float,u32,2>", 1);
   });
 }
